@@ -20,6 +20,8 @@ class Solver:
 
     def __init__(self, prog, ctx=None):
         self.prog = prog
+        # thorough tier: one more unrolling of every loop
+        self.extra_unroll = 1 if (ctx is not None and getattr(ctx, "tier", "quick") == "thorough") else 0
         lib = prog.lib_bodies()
         calls = {}
         for b in lib:
@@ -30,8 +32,12 @@ class Solver:
                     calls[b.path].add(c.get("resolved") or c["path"])
         self.calls = calls
         verdict1 = [b for b in lib if b.kind == "Fn" and b.mir["arg_count"] == 1 and node_arg(b) and is_verdict_ty(b.ret_ty)]
+        # clause fetchers, by type: fn(&KnowledgeBase, ..) -> Rule
+        self.fetchers = {b.path for b in lib if b.kind == "Fn" and b.ret_ty == "rule::Rule" and
+                         any("HashMap<std::string::String, std::vec::Vec<rule::Rule>>" in b.locals[i]["s"]
+                             for i in range(1, b.mir["arg_count"] + 1))}
         # the solver entry fetches clauses
-        entry = [b for b in verdict1 if any(c.endswith("::get_rule") for c in calls[b.path])]
+        entry = [b for b in verdict1 if calls[b.path] & self.fetchers]
         self.entry = entry[0] if len(entry) == 1 else None
         self.and_fn = self.or_fn = self.bip_fn = None
         self.paths_cache = {}
@@ -77,10 +83,14 @@ class Solver:
                     self.flag_readers.add(b.path)
 
     def paths(self, body, max_visits=2):
+        max_visits += self.extra_unroll
         key = (body.path, max_visits)
         if key not in self.paths_cache:
             self.paths_cache[key] = Walker(body, max_visits=max_visits).paths()
         return self.paths_cache[key]
+
+    def is_fetch(self, callee):
+        return callee in self.fetchers
 
     def sn(self, body):
         return ("param", 1, body.locals[1].get("name") or "")
